@@ -131,7 +131,12 @@ def fibre_field(g):
     from EasyFEA.FEM import FeArray, MatrixType
 
     nPg = g.Get_gauss(MatrixType.rigi).nPg
-    return FeArray.asfearray(np.tile(np.array([0.6, 0.8, 0.0]), (g.Ne, nPg, 1)))
+    return FeArray.asfearray(np.tile(fibre_dir(g.dim), (g.Ne, nPg, 1)))
+
+
+def fibre_dir(dim):
+    """exact unit vectors; in 3-D all three components differ and none vanishes (every slot of the Kelvin-Mandel vector of T x T is distinct)"""
+    return np.array([0.6, 0.8, 0.0]) if dim == 2 else np.array([2 / 7, 3 / 7, 6 / 7])
 
 
 def one_element(dim):
@@ -390,6 +395,12 @@ def job_operator(cfg):
             elif op == "ActiveStressTensor":
                 K_e, R_e = NonLinear.ActiveStressTensor(law, st)
                 Wtot = None
+                # virtual work of the active stress tau T x T (second Piola-Kirchhoff): R_e . du = int tau T.(dE)T = d/du [ tau/2 int T.C T ], with
+                # C = F^T F taken from the state and contracted with the fibre HERE (independent of the Kelvin-Mandel vector the law stores)
+                Tn = [Fraction(x).limit_denominator(1000) for x in fibre_dir(dim)]
+                Cm = np.asarray(st.Compute_C(), dtype=object)[0]
+                wJ = np.asarray(g.Get_weightedJacobian_e_pg(MatrixType.rigi), dtype=object)[0]
+                Wact = sum(wJ[p_] * sum(Tn[i] * Cm[p_][i, j] * Tn[j] for i in range(dim) for j in range(dim)) for p_ in range(len(wJ))) * Fraction(3, 4) * (law.thickness if dim == 2 else 1)
             elif op == "KelvinVoigtDamping":
                 K_e, R_e, extra = NonLinear.KelvinVoigtDamping(law, st, v)
                 Wtot = None
@@ -451,6 +462,35 @@ def job_operator(cfg):
                   sample={"obligation": f"{key}: for all nodal displacements in the box: d R_e[i]/d u_j - K_e[i,j] = 0 for all {ndof * ndof} entries"})
         if Wtot is not None:
             close_all(res, f"{key}: R_e = d(int W)/du", [(as_sym(Wtot).diff(syms[i]), R_e[i]) for i in range(ndof)], pcs, replay, f"{key} residual = derivative of the stored energy")
+        if op == "ActiveStressTensor":
+            def replay_act(env):
+                full = fenv(c, env)
+                uf = np.array([float(as_sym(x).eval(full)) for x in u])
+                lawf = make_law(name, dim)
+                thf = float(as_sym(th_sym).eval(full)) if th_sym is not None else 1.0
+                if th_sym is not None:
+                    lawf.thickness = thf
+                lawf.active_stress = 1.5
+                lawf.Set_active_stress_vec(fibre_field(g))
+                Tf = fibre_dir(dim)[:dim]
+
+                def Wf(uu):
+                    s_ = HyperElasticState(g, uu, MatrixType.rigi)
+                    Cf = np.asarray(s_.Compute_C(), dtype=float)[0]
+                    wf = np.asarray(g.Get_weightedJacobian_e_pg(MatrixType.rigi), dtype=float)[0]
+                    return 0.75 * thf * float(sum(wf[p_] * (Tf @ Cf[p_] @ Tf) for p_ in range(len(wf))))
+
+                R0 = np.asarray(NonLinear.ActiveStressTensor(lawf, HyperElasticState(g, uf, MatrixType.rigi))[1], dtype=float)[0]
+                h, err = 1e-6, 0.0
+                for a in range(uf.size):
+                    up, um = uf.copy(), uf.copy()
+                    up[a] += h
+                    um[a] -= h
+                    err = max(err, abs((Wf(up) - Wf(um)) / (2 * h) - R0[a]))
+                return err > 1e-6 * max(1.0, float(np.abs(R0).max())), {"displacement": uf.tolist(), "fibre": Tf.tolist(), "max|R_e - d/du (tau/2 int T.C T)| (central differences)": err}
+
+            close_all(res, f"{key}: R_e = d/du [ tau/2 int T.C T ] (virtual work of tau T x T along the fibre)", [(as_sym(Wact).diff(syms[i]), R_e[i]) for i in range(ndof)], pcs, replay_act,
+                      f"{key} residual = virtual work of the active stress along the fibre")
         if extra is not None:
             C_e = np.asarray(extra, dtype=object)[0]
             close_all(res, f"{key}: C_e = dR_e/dv entrywise", [(as_sym(R_e[i]).diff(vsyms[j]), C_e[i, j]) for i in range(ndof) for j in range(ndof)], pcs, replay, f"{key} damping = derivative of the residual in v")
@@ -992,8 +1032,8 @@ def main():
             if law == "Polynomial" and tier == "thorough":
                 cfgo["rich"] = True
             configs.append(cfgo)
-            if tier == "thorough" and law == "SaintVenantKirchhoff":
-                configs.append({"kind": "operator", "op": op, "law": law, "dim": 3})
+            if law == "SaintVenantKirchhoff" and (tier == "thorough" or op == "ActiveStressTensor"):
+                configs.append({"kind": "operator", "op": op, "law": law, "dim": 3})  # active stress in 3-D in both tiers: fibre with three distinct components
     for nP in ((1, 2, 3, 4, 5, 6) if tier == "quick" else (1, 2, 3, 4, 5, 6, 7, 8, 9)):
         configs.append({"kind": "quadrature", "law": "SaintVenantKirchhoff", "dim": 2, "nPoints": nP})
     if tier == "thorough":
